@@ -23,7 +23,7 @@ def run(ctx):
     syn_model = os.path.join(ctx.env.work, "synisa.yml")
     with open(syn_model, "w") as f:
         f.write(synthisa.arch_yaml(syn_forms))
-    n = (300 if ctx.tier == "quick" else 5000) * (3 if ctx.broken else 1)
+    n = (300 if ctx.tier == "quick" else 2500) * (3 if ctx.broken else 1)
     distinct = set()
     for im, src in dgcheck.kernels_stream(ctx, n, 12 if ctx.tier == "quick" else 40, kinds=["plain", "plain", "mem"]):
         dgcheck.compare_dg(ctx, im)
@@ -40,7 +40,7 @@ def run(ctx):
     from harness import roles, corpus
     from osaca.semantics import MachineModel
 
-    nr = (300 if ctx.tier == "quick" else 4000) * (3 if ctx.broken else 1)
+    nr = (300 if ctx.tier == "quick" else 2000) * (3 if ctx.broken else 1)
     mms = {}
     for t in range(nr):
         isa = "x86" if t % 2 == 0 else "aarch64"
@@ -87,7 +87,7 @@ def run(ctx):
     from osaca.semantics import MachineModel as MM
 
     smm = MM(path_to_yaml=syn_model)
-    ns = (300 if ctx.tier == "quick" else 4000) * (3 if ctx.broken else 1)
+    ns = (300 if ctx.tier == "quick" else 2000) * (3 if ctx.broken else 1)
     for t in range(ns):
         lines, rl = synthisa.gen_kernel(ctx.rng, syn_forms, ctx.rng.randint(2, 8), npool=ctx.rng.choice([2, 3, 4]))
         fd = t % 2 == 1
